@@ -97,7 +97,7 @@ theorem modeOk_text : ModeOk .text := by
   have hf := hs.fits
   unfold FitsM at hf
   rw [hm] at hf
-  obtain ⟨om, up0, x, ho, hup, hom1, hom2, hfit, hxn⟩ := hf
+  obtain ⟨om, up0, x, ho, hup, hom1, hom2, hfit, hxn, _⟩ := hf
   subst hup
   have hc := hs.core
   have hlast : s.openElems.getLast? = some x := by
@@ -216,8 +216,9 @@ theorem beforeHead_insertHead {s s1 : State} {r el : Id} {attrs : List Attr} {du
   simp only [if_true] at hs1
   obtain ⟨hre, _, hcore⟩ := hc.insRoot hres (by decide) (by decide)
   have he0 : rootElems s.dom r = [] := hc.elems.2
+  have he1 : ElemsOk s5.dom (some el) r .p1 := ⟨el, rfl, by rw [hre, he0]; rfl, hres.nmel⟩
   have hcore' := hcore .p1 (some el) (by intro x hx; cases hx; exact ⟨hres.elel, hres.loose⟩)
-    ⟨el, rfl, by rw [hre, he0]; rfl, hres.nmel⟩
+    he1 (Afx.of_elems he1 (fun h => h))
   have hm := hcore'.modes (m' := .inHead) (om' := s5.origMode) rfl hres.late.ml.orig
   rw [hs1]
   exact ⟨hm, ⟨el, rfl, rfl, rfl⟩⟩
